@@ -51,11 +51,22 @@ Qed.
 Definition wire_hdr (payload : bytes) (op : opcode) (fin mask : bool) (key : bytes) : fhdr :=
   mkHdr fin 0 (u8_of_opcode op) (if mask then Some key else None) (minimal_form (lenN payload)) (lenN payload).
 
+(* the in-place masking step: with `pos = dst.len() - payload_len` exactly the payload just appended
+   is XOR-ed; whatever was in front of it (earlier frames, the new header and key) is untouched *)
+Lemma mask_from_tail (pre payload key : bytes) :
+  mask_from (pre ++ payload) (lenN (pre ++ payload) - lenN payload) key = pre ++ apply_mask payload key.
+Proof.
+  unfold mask_from. rewrite lenN_app.
+  replace (N.to_nat (lenN pre + lenN payload - lenN payload)) with (length pre) by (unfold lenN; lia).
+  rewrite firstn_exact, skipn_exact by reflexivity. reflexivity.
+Qed.
+
 Lemma write_message_spec dst payload op fin mask key : lenN payload < 2 ^ 64 ->
   write_message dst payload op fin mask key =
   dst ++ hdr_bytes (wire_hdr payload op fin mask key) ++ (if mask then apply_mask payload key else payload).
 Proof.
   intro H64. unfold write_message, wire_hdr, hdr_bytes, minimal_form.
+  cbv zeta. rewrite mask_from_tail.
   cbn [h_fin h_rsv h_op h_key h_lform h_len].
   assert (H1 : (if fin then N.lor 128 (u8_of_opcode op) else u8_of_opcode op) =
                128 * b2n fin + 16 * 0 + u8_of_opcode op) by (destruct fin, op; reflexivity).
